@@ -78,6 +78,7 @@ property is explored on clean ground):
                                    (stack mode only: a line for a name whose previous line, delivered in the
                                    same chunk, was already expired -- its zero-delay timer has not run yet)
 """
+import ipaddress
 import datetime as _dt
 import os
 import types
@@ -122,8 +123,10 @@ FMT = '%Y-%m-%d %H:%M:%S'
 DAY = 86400
 WEEK = 7 * DAY
 
-NAMES = ['www.example.com', 'mail.example.net', 'abcdefghijklmnop.onion', 'host-4.example.org']
-ADDRS = ['10.0.0.1', '192.0.2.7', '2001:db8::5', 'alias.example.org', '198.51.100.23', 'qrstuvwxyzabcdef.onion']
+NAMES = ['www.example.com', 'mail.example.net', 'abcdefghijklmnop.onion', 'host-4.example.org', 'example.com', 'addr-map.example']
+ADDRS = ['10.0.0.1', '192.0.2.7', '2001:db8::5', 'alias.example.org', '198.51.100.23', 'qrstuvwxyzabcdef.onion',
+         # IPv6 spellings that are legal but not canonical (a MAPADDRESS is echoed as it was typed)
+         '2001:DB8::7', '2001:0db8:0:0:0:0:0:9', '::ffff:192.0.2.9']
 ZONES = [0, 7200, -18000, 19800, 46800]          # UTC, +02:00, -05:00, +05:30, +13:00
 ERROR_CODES = ['yes', 'internal']
 
@@ -313,9 +316,13 @@ class AddrmapRun(object):
         sim, ch, P = self.sim, self.ch, self.P
         self.stack = ch.chance(P.get('stack_share', 1), 4, 'mode') if P.get('stack_share', 1) else False
         n_names = 1 + ch.draw(P.get('max_names', 4), 'nnames')
-        self.names = [NameState(n) for n in NAMES[:n_names]]
+        rot = ch.draw(len(NAMES), 'namerot')        # which name comes first (the bootstrap listing takes the first ones)
+        self.names = [NameState(n) for n in (NAMES[rot:] + NAMES[:rot])[:n_names]]
         self.by_name = dict((s.name, s) for s in self.names)
         self.addrs = ADDRS[:1 + ch.draw(len(ADDRS), 'naddrs')]
+        if ch.chance(1, 4, 'oddv6'):
+            self.addrs = ADDRS[6:] + self.addrs[:2]
+            sim.probe('address-non-canonical-ipv6')
         self.zone = ch.pick(ZONES, 'zone')
         _CLOCK.zone = self.zone
         self.n_updates = ch.draw(P.get('max_updates', 25) + 1, 'nupd')
@@ -829,7 +836,13 @@ class AddrmapRun(object):
     @staticmethod
     def ip_matches(res, addr):
         ip = getattr(res, 'ip', None)
-        return ip == addr or str(ip) == addr
+        if ip == addr or str(ip) == addr:
+            return True
+        try:
+            # the same address in another (non-canonical) spelling
+            return ipaddress.ip_address(str(ip)) == ipaddress.ip_address(addr)
+        except ValueError:
+            return False
 
     def describe(self, st):
         if not st.present:
